@@ -243,6 +243,15 @@ def safe_task(fn, prop, tier, seed):
     return run
 
 
+def chunks(items, nchunks):
+    """contiguous split into <= nchunks chunks: neighbouring cases stay in the same task (and so in the same
+    process, in enumeration order) - what a fault that depends on earlier calls needs in order to show and to replay"""
+    items = list(items)
+    nchunks = max(1, min(nchunks, len(items)))
+    size = -(-len(items) // nchunks)
+    return [items[i:i + size] for i in range(0, len(items), size)]
+
+
 def spread(items, nchunks):
     """Deterministic round-robin split of a list into <= nchunks non-empty chunks."""
     items = list(items)
